@@ -1,7 +1,9 @@
-"""U-PSPAN4 (C13) - fourth sister unit of U-PSPAN: parse_function_body of src/alpha/parser.rs (and Statement::location of common.rs) VERIFIED under
-the span contract (contracts/u_pspan.vc, spec/u_pspan_spec.rs); the nineteen parse functions of the sister units are external with the contract
-text that U-PSPAN / U-PSPAN2 / U-PSPAN3 prove."""
+"""U-PSPAN4 (C13) - fourth sister unit of U-PSPAN: parse_function_body, parse_member, parse_parameter, parse_struct_members and
+parse_rest_of_function_signature of src/alpha/parser.rs (and Statement::location of common.rs) VERIFIED under the span contract (contracts/u_pspan.vc for
+the cursor and the sister functions, contracts/u_pspan4.vc and spec/u_pspan4_spec.rs for these); the nineteen parse functions of the sister units are
+external with the contract text that U-PSPAN / U-PSPAN2 / U-PSPAN3 prove.  Rules PS3 (`?` into Poison written out) and PS4 (map_err(|e| e.into()) written out)."""
 from units import u_pspan
+from vlib import rules
 from units.u_plit import C, E
 from units import u_pspan_rules as PR
 from units.u_align import import_contracts
@@ -12,6 +14,8 @@ def types(u):
     u.load_contracts('contracts/u_pspan4.vc')
     import_contracts(u, 'contracts/u_scope.vc', ['impl From<Error> for Poison :: fn from'])
     u.emit(C, 'struct FunctionBody', derive_drop=['Clone'])
+    u.emit(C, 'struct Member', derive_drop=['Clone'])
+    u.emit(C, 'struct Parameter', derive_drop=['Clone'])
     u.emit(E, 'impl From<Error> for Poison')
     u.raw('//@prelude FromSpecImpl<Error> for Poison restates the From impl verified just above\n'
           'impl vstd::std_specs::convert::FromSpecImpl<Error> for Poison {\n\topen spec fn obeys_from_spec() -> bool { true }\n'
@@ -21,4 +25,4 @@ def types(u):
 
 
 def build(u):
-    u_pspan.build_with(u, (), extra=('parse_function_body',), extra_types=types, extra_rules=[PR.ps3_question_into_poison])
+    u_pspan.build_with(u, (), extra=('parse_function_body', 'parse_member', 'parse_parameter', 'parse_struct_members', 'parse_rest_of_function_signature'), extra_types=types, extra_rules=[rules.only_for(['fn parse_function_body'], PR.ps3_question_into_poison), PR.ps4_map_err_into])
